@@ -10,6 +10,8 @@
 // of its own: the only arithmetic done here is the evaluation of the
 // conditions the property itself names on the returned point (x >= -tol,
 // |Ax-b| <= tol, |c.x - value| <= tol(1+|value|)), done exactly in big.Rat.
+// General-form programs are handed to lp.Convert in several storage forms of the same values
+// (compact Dense, view of a wider matrix, transpose view, bare mat.Matrix; see matRep).
 package lp
 
 import (
@@ -31,6 +33,8 @@ type only struct {
 	IB    []int   `json:"ib"` // nil: no initial basis
 	Tol   float64 `json:"tol"`
 	Again bool    `json:"again,omitempty"` // the judged call is the second one made with the same slices
+	GRep  string  `json:"grep,omitempty"`  // general form: representation of G handed to Convert ("" = compact Dense)
+	ARep  string  `json:"arep,omitempty"`  // general form: representation of A
 }
 
 type lpCase struct {
@@ -114,7 +118,9 @@ var wantErr = map[string]error{
 type state struct {
 	sum     *core.Summary
 	hangs   int
-	hungNow bool // a call of the current program hung: its remaining calls are skipped
+	hungNow bool   // a call of the current program hung: its remaining calls are skipped
+	grep    string // general form: the representation of G / A behind the current call (for failure cases)
+	arep    string
 }
 
 func ratOf(f float64) *big.Rat {
@@ -183,7 +189,7 @@ func (s *state) simplex(c *lpCase, variant string, cv []float64, A *mat.Dense, b
 	sum.Cases++
 	sum.Count("calls_"+variant, 1)
 	fc := *c
-	fc.Only = &only{IB: ib, Tol: tol, Again: again}
+	fc.Only = &only{IB: ib, Tol: tol, Again: again, GRep: s.grep, ARep: s.arep}
 	// signature: lp:simplex:<variant>:<kind>:<square|wide>:<degenerate|nondegenerate>
 	// (square: m == n, Simplex takes its linear-solve path; degenerate: some feasible basis of the
 	// program has a zero basic variable - the only situation in which pivoting can stall or cycle)
@@ -340,28 +346,208 @@ func variantOf(ib []int) string {
 	return "ib"
 }
 
+// ---- representations of one and the same general-form program ---------------------------------
+//
+// Convert takes G and A as mat.Matrix and h, b, c as slices.  The class and the optimum LpConvert.tla
+// printed belong to the VALUES; how the caller stores them is not part of the program.  Every
+// general-form program is therefore handed over in several storage forms (operand builders only:
+// the values are the case's values, the surroundings are junk that must never be read or written):
+//
+//	dense  a compact *mat.Dense (stride = columns)
+//	view   a Slice view into a wider and taller junk-filled *mat.Dense whose extra columns hold
+//	       the right-hand side (G cut out of an augmented [junk | G | h | junk]): stride != columns,
+//	       data offset != 0
+//	trans  the transpose view T() of a compact Dense that stores the transposed values
+//	iface  a user type that implements mat.Matrix and nothing else (no RawMatrixer, no fast path);
+//	       its At panics outside the matrix like every gonum matrix does
+//
+// and the slices either as exact allocations ("plain") or as windows of longer junk-filled arrays
+// with spare capacity ("sub").  After Convert every operand, the junk included, must be bit for bit
+// what it was: Convert returns NEW data and has no business writing to its inputs.
+
+// onlyMatrix implements mat.Matrix and nothing more.
+type onlyMatrix struct {
+	r, c int
+	data []float64
+}
+
+func (m *onlyMatrix) Dims() (int, int) { return m.r, m.c }
+func (m *onlyMatrix) At(i, j int) float64 {
+	if i < 0 || i >= m.r || j < 0 || j >= m.c {
+		panic(fmt.Sprintf("onlyMatrix: index (%d,%d) outside %dx%d", i, j, m.r, m.c))
+	}
+	return m.data[i*m.c+j]
+}
+func (m *onlyMatrix) T() mat.Matrix { return mat.Transpose{Matrix: m} }
+
+func junk(i int) float64 { return float64(1000+37*i-91*(i%5)) * float64(1-2*(i%2)) }
+
+// operand is one stored operand together with everything around it that must stay untouched.
+type operand struct {
+	what    string
+	backing []float64 // the whole allocation (junk included)
+	orig    []float64 // its content before the call
+}
+
+func (o *operand) changed() string {
+	for i := range o.backing {
+		if math.Float64bits(o.backing[i]) != math.Float64bits(o.orig[i]) {
+			return fmt.Sprintf("%s: element %d of its storage changed from %v to %v", o.what, i, o.orig[i], o.backing[i])
+		}
+	}
+	return ""
+}
+
+func watch(what string, backing []float64) *operand {
+	return &operand{what: what, backing: backing, orig: append([]float64(nil), backing...)}
+}
+
+// matRep stores rows (r x cols, r >= 1) in the named representation; rhs is put next to it in the view form.
+func matRep(rep, what string, rows [][]float64, cols int, rhs []float64) (mat.Matrix, *operand) {
+	r := len(rows)
+	switch rep {
+	case "view":
+		R, C := r+2, cols+3
+		data := make([]float64, R*C)
+		for i := range data {
+			data[i] = junk(i)
+		}
+		for i, row := range rows {
+			copy(data[(i+1)*C+1:], row)
+			if i < len(rhs) {
+				data[(i+1)*C+1+cols] = rhs[i]
+			}
+		}
+		w := mat.NewDense(R, C, data)
+		return w.Slice(1, r+1, 1, cols+1), watch(what+"(view of a wider matrix)", data)
+	case "trans":
+		data := make([]float64, cols*r)
+		for i, row := range rows {
+			for j, v := range row {
+				data[j*r+i] = v
+			}
+		}
+		return mat.NewDense(cols, r, data).T(), watch(what+"(transpose view)", data)
+	case "iface":
+		data := make([]float64, r*cols)
+		for i, row := range rows {
+			copy(data[i*cols:], row)
+		}
+		return &onlyMatrix{r: r, c: cols, data: data}, watch(what+"(plain mat.Matrix)", data)
+	}
+	data := make([]float64, r*cols)
+	for i, row := range rows {
+		copy(data[i*cols:], row)
+	}
+	return mat.NewDense(r, cols, data), watch(what+"(compact Dense)", data)
+}
+
+// vecRep stores v exactly ("plain") or as a window with spare capacity of a longer junk-filled array.
+func vecRep(sub bool, what string, v []float64) ([]float64, *operand) {
+	if !sub {
+		c := append([]float64(nil), v...)
+		return c, watch(what, c[:len(c):len(c)])
+	}
+	back := make([]float64, len(v)+5)
+	for i := range back {
+		back[i] = junk(i + 3)
+	}
+	copy(back[2:], v)
+	return back[2 : 2+len(v)], watch(what+"(window of a longer array)", back)
+}
+
+var convReps = []string{"dense", "view", "trans", "iface"}
+
 // general form: min c.x  s.t.  G x <= h,  A x = b  (x free);  Convert, then Simplex.
-func (s *state) general(c *lpCase) {
+func (s *state) general(c *lpCase, seed int64) {
+	type pair struct{ g, a string }
+	var pairs []pair
+	if c.Only != nil {
+		pairs = []pair{{c.Only.GRep, c.Only.ARep}}
+	} else {
+		for _, r := range convReps {
+			pairs = append(pairs, pair{r, r})
+		}
+		// two mixed pairs, seed-chosen among the twelve
+		k := int((seed + int64(c.ID)) % 12)
+		for t := 0; t < 2; t++ {
+			kk := (k + 5*t) % 12
+			g := kk / 3
+			a := kk % 3
+			if a >= g {
+				a++
+			}
+			pairs = append(pairs, pair{convReps[g], convReps[a]})
+		}
+	}
+	for _, p := range pairs {
+		if p.g == "" {
+			p.g = "dense"
+		}
+		if p.a == "" {
+			p.a = "dense"
+		}
+		s.generalRep(c, p.g, p.a)
+	}
+}
+
+func (s *state) generalRep(c *lpCase, grep, arep string) {
 	nv := len(c.C)
-	G := dense(c.G, nv)
-	A := dense(c.A, nv)
+	compact := grep == "dense" && arep == "dense"
+	variant := "conv"
+	if !compact {
+		variant = "conv-rep" // G / A / the vectors are not compact allocations
+	}
+	fc := *c
+	fc.Only = &only{Tol: tols[0], GRep: grep, ARep: arep}
+	if c.Only != nil {
+		fc.Only.Tol = c.Only.Tol
+	}
+	var ops []*operand
+	var gm, am mat.Matrix // nil interfaces when there are no rows (as the documentation allows)
+	if len(c.G) > 0 {
+		m, o := matRep(grep, "G", c.G, nv, c.H)
+		gm, ops = m, append(ops, o)
+	}
+	if len(c.A) > 0 {
+		m, o := matRep(arep, "A", c.A, nv, c.B)
+		am, ops = m, append(ops, o)
+	}
+	cv, oc := vecRep(!compact, "c", c.C)
+	hv, oh := vecRep(!compact, "h", c.H)
+	bv, ob := vecRep(!compact, "b", c.B)
+	ops = append(ops, oc, oh, ob)
 	var (
 		cNew, bNew []float64
 		aNew       *mat.Dense
 	)
-	var gm, am mat.Matrix // nil interfaces when there are no rows (as the documentation allows)
-	if G != nil {
-		gm = G
-	}
-	if A != nil {
-		am = A
-	}
 	out := core.Call(func() {
-		cNew, aNew, bNew = golp.Convert(append([]float64(nil), c.C...), gm, append([]float64(nil), c.H...), am, append([]float64(nil), c.B...))
+		cNew, aNew, bNew = golp.Convert(cv, gm, hv, am, bv)
 	})
+	switch {
+	case compact:
+		s.sum.Count("convert_compact_dense", 1)
+	case grep == arep:
+		s.sum.Count("convert_"+grep, 1)
+	default:
+		s.sum.Count("convert_mixed_representations", 1)
+	}
 	if out.Panicked {
 		s.sum.Cases++
-		s.sum.Fail("lp:convert:panic", "Convert panicked on a well-shaped general-form program: "+out.Text, c)
+		s.sum.Fail("lp:convert:panic", fmt.Sprintf("Convert panicked on a well-shaped general-form program (G as %s, A as %s): %s", grep, arep, out.Text), fc)
+		return
+	}
+	unchanged := func(when string) bool {
+		for _, o := range ops {
+			if msg := o.changed(); msg != "" {
+				s.sum.Cases++
+				s.sum.Fail("lp:convert:input-modified", fmt.Sprintf("%s (G as %s, A as %s): %s", when, grep, arep, msg), fc)
+				return false
+			}
+		}
+		return true
+	}
+	if !unchanged("Convert wrote to its operands") {
 		return
 	}
 	tl := tols
@@ -370,7 +556,9 @@ func (s *state) general(c *lpCase) {
 	}
 	for _, tol := range tl {
 		// the layout of the standard-form variables is not part of Convert's contract: only class and value are judged
-		s.simplex(c, "conv", cNew, aNew, bNew, tol, nil, false)
+		s.grep, s.arep = grep, arep
+		s.simplex(c, variant, cNew, aNew, bNew, tol, nil, false)
+		s.grep, s.arep = "", ""
 	}
 }
 
@@ -413,7 +601,7 @@ func replay(in *core.Lines, args []string, seed int64, sum *core.Summary) error 
 		}
 		before := sum.Cases
 		if c.Form == "gen" {
-			s.general(&c)
+			s.general(&c, seed)
 		} else {
 			s.standard(&c, seed)
 		}
